@@ -31,15 +31,23 @@ def render(ead, order=None, continuation=None, comments=False, models="after", r
             lines.append(" ".join(tokens[:3]) + " \\")
             lines.append("\\")
             lines.append(" " + " ".join(tokens[3:]))
-        elif continuation and continuation != "lone" and len(tokens) > continuation:
+        elif continuation and continuation not in ("lone", "split") and len(tokens) > continuation:
             lines.append(" ".join(tokens[:continuation]) + " \\")
             lines.append(" " + " ".join(tokens[continuation:]))
         else:
             lines.append(" ".join(tokens))
 
+    def port_lines(kw, names):
+        # "split": the list spread over several statements of the same kind
+        if continuation == "split" and len(names) > 1:
+            return ["%s %s" % (kw, nm) for nm in names]
+        return None
+
     def model_text(m):
-        out = [".model " + m["name"], ".inputs " + " ".join(m["inputs"]), ".outputs " + " ".join(m["outputs"]), ".blackbox", ".end", ""]
-        return out
+        out = [".model " + m["name"]]
+        out += port_lines(".inputs", m["inputs"]) or [".inputs " + " ".join(m["inputs"])]
+        out += port_lines(".outputs", m["outputs"]) or [".outputs " + " ".join(m["outputs"])]
+        return out + [".blackbox", ".end", ""]
 
     if comments:
         lines.append("# written by the independent writer")
@@ -47,8 +55,12 @@ def render(ead, order=None, continuation=None, comments=False, models="after", r
         for m in ead.get("models", ()):
             lines += model_text(m)
     lines.append(".model " + ead["name"])
-    emit([".inputs"] + list(ead["inputs"]))
-    emit([".outputs"] + list(ead["outputs"]))
+    for kw, names in ((".inputs", list(ead["inputs"])), (".outputs", list(ead["outputs"]))):
+        split = port_lines(kw, names)
+        if split:
+            lines.extend(split)
+        else:
+            emit([kw] + names)
     if ead.get("clock"):
         emit([".clock"] + list(ead["clock"]))
     items = ead["items"]
